@@ -12,7 +12,7 @@ pub mod core;
 pub mod data;
 pub mod spec;
 
-use crate::core::Ctx;
+use crate::core::{Ctx, Hist};
 use crate::spec::{combine, Expect, ParamSpec};
 use proptest::prelude::*;
 use serde::{Deserialize, Serialize};
@@ -27,11 +27,26 @@ pub struct Case {
     pub vals: Vec<f64>,
     /// seed of the tiny dataset / of linfa's generators
     pub seed: u64,
+    /// history cases: the builder's earlier life (absent = the builder is configured once)
+    #[serde(default, skip_serializing_if = "Option::is_none")]
+    pub first: Option<First>,
+}
+
+#[derive(Debug, Clone, Serialize, Deserialize)]
+pub struct First {
+    /// the assignment the builder was configured with before
+    pub vals: Vec<f64>,
+    /// operation run on it afterwards (outcome ignored): 0 = check_ref, 1 = check on a copy, 2 = fit / fit_with / transform on tiny data
+    pub action: u8,
+    /// re-configure a clone taken after that operation (false: the same builder)
+    pub on_clone: bool,
 }
 
 pub struct Builder {
     pub id: &'static str,
     pub params: Vec<ParamSpec>,
+    /// indices of parameters that can only be given to the constructor (equal in both assignments of a history case)
+    pub ctor: &'static [usize],
     /// cross-parameter constraints of the documented range (`min <= max`), `In` when there are none
     pub cross: fn(&[f64]) -> Expect,
     /// recognises assignments whose only out-of-range reason is a recorded defect
@@ -46,29 +61,44 @@ pub fn no_narrow(_: &[f64]) -> Option<&'static str> {
     None
 }
 
+fn expectation(b: &Builder, vals: &[f64]) -> (Vec<Expect>, Expect, Expect, bool) {
+    let per: Vec<Expect> = b.params.iter().zip(vals).map(|(p, v)| p.expect(*v)).collect();
+    let cross = (b.cross)(vals);
+    let expect = combine(per.iter().copied().chain(std::iter::once(cross)));
+    let safe = b.params.iter().zip(vals).all(|(p, v)| p.is_safe(*v));
+    (per, cross, expect, safe)
+}
+
+/// stored cases written before a parameter was appended to a row: missing trailing values are the defaults
+fn padded(b: &Builder, vals: &[f64]) -> Vec<f64> {
+    let mut v = vals.to_vec();
+    while v.len() < b.params.len() {
+        v.push(b.params[v.len()].default);
+    }
+    v
+}
+
 fn check_case(c: &Case, obs: &mut Obs) {
     let reg = builders::registry();
     let Some(b) = reg.iter().find(|b| b.id == c.builder) else {
         obs.skip("unknown_builder");
         return;
     };
-    if b.params.len() != c.vals.len() || c.vals.iter().any(|v| !v.is_finite()) {
+    let vals = padded(b, &c.vals);
+    if b.params.len() != vals.len() || vals.iter().any(|v| !v.is_finite()) {
         obs.skip("malformed_case");
         return;
     }
-    let per: Vec<Expect> = b.params.iter().zip(&c.vals).map(|(p, v)| p.expect(*v)).collect();
-    let cross = (b.cross)(&c.vals);
-    let expect = combine(per.iter().copied().chain(std::iter::once(cross)));
-    let fit_safe = b.params.iter().zip(&c.vals).all(|(p, v)| p.is_safe(*v));
+    let (per, cross, expect, fit_safe) = expectation(b, &vals);
     let n_out = per.iter().filter(|e| **e == Expect::Out).count() + usize::from(cross == Expect::Out);
     let n_in_nondefault = b
         .params
         .iter()
-        .zip(&c.vals)
+        .zip(&vals)
         .zip(&per)
         .filter(|((p, v), e)| **e == Expect::In && v.to_bits() != p.default.to_bits())
         .count();
-    let n_nondefault = b.params.iter().zip(&c.vals).filter(|(p, v)| v.to_bits() != p.default.to_bits()).count();
+    let n_nondefault = b.params.iter().zip(&vals).filter(|(p, v)| v.to_bits() != p.default.to_bits()).count();
 
     match expect {
         Expect::In => obs.class("expect_valid"),
@@ -79,18 +109,56 @@ fn check_case(c: &Case, obs: &mut Obs) {
     obs.class_if(cross == Expect::Out, "cross_constraint_violated");
     obs.class_if(n_nondefault == 0, "all_default");
     obs.class_if(expect == Expect::In && fit_safe, "valid_and_trainable");
-    // NT rule of the design: at least one out-of-range value together with at least one in-range non-default value
-    obs.nontrivial_if(n_out >= 1 && n_in_nondefault >= 1);
 
-    let narrow = if expect == Expect::Out { (b.narrow)(&c.vals) } else { None };
+    // history
+    let first_vals;
+    let hist = match &c.first {
+        None => {
+            // NT rule of the design: at least one out-of-range value together with at least one in-range non-default value
+            obs.nontrivial_if(n_out >= 1 && n_in_nondefault >= 1);
+            None
+        }
+        Some(f) => {
+            first_vals = padded(b, &f.vals);
+            let ctor_equal = b.ctor.iter().all(|i| first_vals.get(*i).map(|x| x.to_bits()) == vals.get(*i).map(|x| x.to_bits()));
+            if first_vals.len() != vals.len() || first_vals.iter().any(|v| !v.is_finite()) || !ctor_equal {
+                obs.skip("malformed_case");
+                return;
+            }
+            let (_, _, e1, safe1) = expectation(b, &first_vals);
+            let changed = first_vals.iter().zip(&vals).any(|(a, b)| a.to_bits() != b.to_bits());
+            obs.class(match (e1, expect) {
+                (Expect::In, Expect::Out) => "history_valid_then_invalid",
+                (Expect::Out, Expect::In) => "history_invalid_then_valid",
+                (Expect::In, Expect::In) => "history_valid_then_valid",
+                (Expect::Out, Expect::Out) => "history_invalid_then_invalid",
+                _ => "history_with_ambiguous_assignment",
+            });
+            obs.class(match f.action {
+                0 => "history_first_op_check_ref",
+                1 => "history_first_op_check_by_value",
+                _ if safe1 => "history_first_op_training_entry",
+                _ => "history_first_op_training_entry_replaced_by_check_ref",
+            });
+            obs.class_if(f.on_clone, "history_reconfigured_clone");
+            obs.class_if(!f.on_clone, "history_reconfigured_same_builder");
+            obs.class_if(!changed, "history_same_assignment_twice");
+            // NT rule of the history sub-checks: valid -> invalid here; "both valid with differing fit result" is decided in fit_core
+            obs.nontrivial_if(e1 == Expect::In && expect == Expect::Out);
+            Some(Hist { vals: &first_vals, action: f.action, on_clone: f.on_clone, trainable: safe1, expect: e1 })
+        }
+    };
+
+    let narrow = if expect == Expect::Out { (b.narrow)(&vals) } else { None };
     let cx = Ctx {
         id: b.id,
-        vals: &c.vals,
+        vals: &vals,
         names: b.params.iter().map(|p| p.name).collect(),
         expect,
         fit_safe,
         narrow,
         seed: c.seed,
+        hist,
     };
     obs.class(cx.cls(match expect {
         Expect::In => "valid",
@@ -108,12 +176,12 @@ fn single_rows() -> Vec<Case> {
     let mut out = vec![];
     for b in builders::registry() {
         let defaults: Vec<f64> = b.params.iter().map(|p| p.default).collect();
-        out.push(Case { builder: b.id.to_string(), vals: defaults.clone(), seed: 1 });
+        out.push(Case { builder: b.id.to_string(), vals: defaults.clone(), seed: 1, first: None });
         for (i, p) in b.params.iter().enumerate() {
             for (k, g) in p.grid().into_iter().enumerate().skip(1) {
                 let mut vals = defaults.clone();
                 vals[i] = g;
-                out.push(Case { builder: b.id.to_string(), vals, seed: (i * 31 + k) as u64 });
+                out.push(Case { builder: b.id.to_string(), vals, seed: (i * 31 + k) as u64, first: None });
             }
         }
     }
@@ -134,7 +202,7 @@ fn pair_rows() -> Vec<Case> {
                         let mut vals = defaults.clone();
                         vals[i] = *x;
                         vals[j] = *y;
-                        out.push(Case { builder: b.id.to_string(), vals, seed: (a * 17 + c) as u64 });
+                        out.push(Case { builder: b.id.to_string(), vals, seed: (a * 17 + c) as u64, first: None });
                     }
                 }
             }
@@ -158,45 +226,115 @@ fn full_product(limit: usize) -> Vec<Case> {
                 vals.push(g[k % g.len()]);
                 k /= g.len();
             }
-            out.push(Case { builder: b.id.to_string(), vals, seed: (out.len() % 7) as u64 });
+            out.push(Case { builder: b.id.to_string(), vals, seed: (out.len() % 7) as u64, first: None });
         }
     }
     out
 }
 
-/// random full assignments. `mode` steers the share of verdicts: all values in range / exactly one
+/// one full assignment. `mode` steers the share of verdicts: all values in range / exactly one
 /// parameter anywhere on its grid / every parameter anywhere on its grid.
+fn assignment(b: &Builder, mode: u8, picks: &[u16], which: u16) -> Vec<f64> {
+    let k = b.params.len();
+    let free = idx(which, k.max(1));
+    b.params
+        .iter()
+        .enumerate()
+        .map(|(i, p)| {
+            let g = p.grid();
+            let pick = picks.get(i).copied().unwrap_or(0);
+            let anywhere = g[idx(pick, g.len())];
+            let inside: Vec<f64> = g.iter().copied().filter(|v| p.expect(*v) == Expect::In).collect();
+            let trainable: Vec<f64> = inside.iter().copied().filter(|v| p.is_safe(*v)).collect();
+            let in_range = if inside.is_empty() { p.default } else { inside[idx(pick, inside.len())] };
+            let safe = if trainable.is_empty() { p.default } else { trainable[idx(pick, trainable.len())] };
+            match mode {
+                0 | 1 => safe,     // valid and trainable
+                2 => in_range,     // valid, bounds included
+                3 | 4 => {
+                    // one parameter free
+                    if i == free {
+                        anywhere
+                    } else {
+                        safe
+                    }
+                }
+                _ => anywhere,
+            }
+        })
+        .collect()
+}
+
+/// random full assignments
 fn combo_strategy() -> impl Strategy<Value = Case> {
     let n = builders::registry().len();
     (any::<u16>(), 0u8..8, proptest::collection::vec(any::<u16>(), 12), any::<u16>(), 0u64..16).prop_map(
         move |(bi, mode, picks, which, seed)| {
             let reg = builders::registry();
             let b = &reg[idx(bi, n)];
-            let k = b.params.len();
-            let free = idx(which, k.max(1));
-            let vals = b
-                .params
-                .iter()
-                .enumerate()
-                .map(|(i, p)| {
-                    let g = p.grid();
-                    let pick = picks.get(i).copied().unwrap_or(0);
-                    let anywhere = g[idx(pick, g.len())];
-                    let inside: Vec<f64> = g.iter().copied().filter(|v| p.expect(*v) == Expect::In).collect();
-                    let trainable: Vec<f64> = inside.iter().copied().filter(|v| p.is_safe(*v)).collect();
-                    let in_range = if inside.is_empty() { p.default } else { inside[idx(pick, inside.len())] };
-                    let safe = if trainable.is_empty() { p.default } else { trainable[idx(pick, trainable.len())] };
-                    match mode {
-                        0 | 1 => safe,                                   // valid and trainable
-                        2 => in_range,                                   // valid, bounds included
-                        3 | 4 => if i == free { anywhere } else { safe } // one parameter free
-                        _ => anywhere,
-                    }
-                })
-                .collect();
-            Case { builder: b.id.to_string(), vals, seed }
+            Case { builder: b.id.to_string(), vals: assignment(b, mode, &picks, which), seed, first: None }
         },
     )
+}
+
+/// random histories: two full assignments (constructor-only parameters shared), first operation, same builder / clone
+fn history_strategy() -> impl Strategy<Value = Case> {
+    let n = builders::registry().len();
+    (
+        any::<u16>(),
+        (0u8..8, proptest::collection::vec(any::<u16>(), 12), any::<u16>()),
+        (0u8..8, proptest::collection::vec(any::<u16>(), 12), any::<u16>()),
+        0u8..3,
+        any::<bool>(),
+        0u64..16,
+    )
+        .prop_map(move |(bi, (m2, p2, w2), (m1, p1, w1), action, on_clone, seed)| {
+            let reg = builders::registry();
+            let b = &reg[idx(bi, n)];
+            let vals = assignment(b, m2, &p2, w2);
+            // the earlier assignment is valid and trainable in 5 of 8 cases
+            let mut v1 = assignment(b, m1, &p1, w1);
+            for i in b.ctor {
+                if let (Some(x), Some(y)) = (v1.get_mut(*i), vals.get(*i)) {
+                    *x = *y;
+                }
+            }
+            Case { builder: b.id.to_string(), vals, seed, first: Some(First { vals: v1, action, on_clone }) }
+        })
+}
+
+/// enumerated histories: for every parameter, every ordered pair (a, b) of its grid values: configured with a
+/// (others default), first operation, re-configured to b. All six (operation, same/clone) variants for transitions
+/// from or to the default, one variant (cycled) for the others.
+fn history_rows() -> Vec<Case> {
+    let mut out = vec![];
+    for b in builders::registry() {
+        let defaults: Vec<f64> = b.params.iter().map(|p| p.default).collect();
+        for (i, p) in b.params.iter().enumerate() {
+            if b.ctor.contains(&i) {
+                continue;
+            }
+            let g = p.grid();
+            for (ia, a) in g.iter().enumerate() {
+                for (ib, bv) in g.iter().enumerate() {
+                    let mut v1 = defaults.clone();
+                    v1[i] = *a;
+                    let mut v2 = defaults.clone();
+                    v2[i] = *bv;
+                    let variants: Vec<u8> = if ia == 0 || ib == 0 { (0..6).collect() } else { vec![((ia * 7 + ib) % 6) as u8] };
+                    for var in variants {
+                        out.push(Case {
+                            builder: b.id.to_string(),
+                            vals: v2.clone(),
+                            seed: (ia + ib) as u64 % 5,
+                            first: Some(First { vals: v1.clone(), action: var % 3, on_clone: var >= 3 }),
+                        });
+                    }
+                }
+            }
+        }
+    }
+    out
 }
 
 pub fn property() -> Property {
@@ -205,13 +343,19 @@ pub fn property() -> Property {
         rule: "case = (builder, one value per numeric parameter from the boundary grid {far below, just below, at, just inside, far inside, at / just \
                above an upper bound} of its documented range, dataset seed). Enumerated: every single-parameter boundary row and every pair of \
                parameters x pair of grid values (others default), and the full product of all grids for every builder whose product has <= 2500 points (quick) / for every builder (thorough); random: full assignments (all-valid / one free parameter / all free). \
-               Non-trivial = at least one out-of-range value together with at least one in-range non-default value; distinct = distinct canonical JSON",
+               Non-trivial = at least one out-of-range value together with at least one in-range non-default value; distinct = distinct canonical JSON. \
+               History sub-checks: two assignments v1, v2 (constructor-only parameters shared); a builder is configured with v1, one of {check_ref, check on a copy, \
+               training entry point} runs on it, then the same builder or a clone of it is re-configured to v2 through the setters and must be indistinguishable from a \
+               fresh builder with v2. Enumerated: every ordered pair of grid values of every parameter; random: two full assignments. Non-trivial there = v1 valid and v2 \
+               invalid, or both valid and trainable with different training results",
         assumptions: builders::assumptions(),
         subs: vec![
             prop_sub("random_combinations", 40000, 1200000, |_t: Tier| combo_strategy(), check_case).chunks(16),
             enum_sub("full_product", |t: Tier| full_product(t.pick(2500, 400_000)), check_case).chunks(16),
             enum_sub("pair_rows", |_t: Tier| pair_rows(), check_case).chunks(16),
             enum_sub("single_rows", |_t: Tier| single_rows(), check_case).chunks(8),
+            prop_sub("history_random", 30000, 600000, |_t: Tier| history_strategy(), check_case).chunks(16),
+            enum_sub("history_rows", |_t: Tier| history_rows(), check_case).chunks(16),
         ],
     }
 }
